@@ -933,7 +933,6 @@ func (x *Explorer) assert(label string, c value) {
 			}
 			x.S.pop()
 			x.recordViolation(label, true, m, ev, nil)
-			panic(pathEnd{kind: endStop, msg: "assertion violated (concrete)"})
 		}
 		return
 	case sym:
